@@ -35,13 +35,20 @@ pub enum Alignment {
 pub struct Parser<'a> {
     pattern: &'a str,
     it: Peekable<CharIndices<'a>>,
+    /// how many parenthesised arguments are open
+    depth: usize,
 }
+
+/// Parsing, converting, encoding and dropping a pattern recurse once per level of nested
+/// arguments; deeper patterns are rejected instead of overflowing the stack.
+const MAX_DEPTH: usize = 64;
 
 impl<'a> Parser<'a> {
     pub fn new(pattern: &'a str) -> Parser<'a> {
         Parser {
             pattern,
             it: pattern.char_indices().peekable(),
+            depth: 0,
         }
     }
 
@@ -109,7 +116,17 @@ impl<'a> Parser<'a> {
         if !self.consume('(') {
             return Ok(vec![]);
         }
+        if self.depth == MAX_DEPTH {
+            for _ in &mut self.it {}
+            return Err("nesting too deep".to_owned());
+        }
+        self.depth += 1;
+        let arg = self.arg_pieces();
+        self.depth -= 1;
+        arg
+    }
 
+    fn arg_pieces(&mut self) -> Result<Vec<Piece<'a>>, String> {
         let mut arg = vec![];
         loop {
             // a doubled `))` is an escaped `)` inside an argument as well; it cannot be two
